@@ -158,7 +158,7 @@ func propC11(c *Ctx) {
 		m := map[string]string{"ROUTE": "phi{&$0.route | &new(stack.Route)}"}
 		c.CheckSites(u5, fn, []SiteSpec{
 			{Kind: "call", Target: "udp.sendUDP", Args: sub(m, "{ROUTE}", "buffer.View.ToVectorisedView("+payload+"#0)", "$0.id.LocalPort", "phi{$0.dstPort | new(tcpip.FullAddress).Port@2}", "*"),
-				Guards: []string{"(" + payload + "#1 == nil)", "!(65527 < iface:tcpip.Payload.Size($1))"}, N: 1,
+				Guards: []string{"(" + payload + "#1 == nil)", "(iface:tcpip.Payload.Size($1) < 65528)"}, N: 1,
 				Why: "exactly one send: whole payload, endpoint's local port, connect/To destination port; only for sizes that fit the 16-bit length"},
 			{Kind: "call", Target: "iface:tcpip.Payload.Get", Args: []string{"$1", "iface:tcpip.Payload.Size($1)"}, N: 1, Why: "the whole payload is fetched"},
 		})
